@@ -90,6 +90,58 @@ func c13InitSeries() {
 		c13Labels = append(c13Labels, ls)
 		c13FPs = append(c13FPs, ls.Hash())
 	}
+	// label sets with DIFFERENT label-name sets (nested, overlapping, disjoint, empty): what a response to
+	// `count(x) by (...)`, `x or y`, `{__name__=~".+"}` carries.  Indices 4.. ; 0..3 share one name set.
+	for _, kv := range [][]string{
+		{"__name__", "m"},                                 // 4: subset of 0..3
+		{"__name__", "m", "s", "0", "job", "a"},           // 5: superset of 0
+		{"__name__", "m", "job", "a"},                     // 6: overlaps 0..3 and 5
+		{"job", "a"},                                      // 7: no metric name (aggregation result)
+		{},                                                // 8: empty label set (count(x))
+		{"instance", "i1", "zone", "z"},                   // 9: disjoint from all others
+		{"__name__", "m", "s", "0", "job", "a", "env", "p"}, // 10: superset of 5
+		{"zone", "z"},                                     // 11: subset of 9
+	} {
+		ls := labels.FromStrings(kv...)
+		c13Labels = append(c13Labels, ls)
+		c13FPs = append(c13FPs, ls.Hash())
+	}
+	seen := map[uint64]bool{}
+	for _, f := range c13FPs {
+		if seen[f] {
+			panic("C13 harness: fingerprint collision inside the series vocabulary")
+		}
+		seen[f] = true
+	}
+}
+
+// c13PickSeries chooses ns distinct vocabulary indices in a random order; the stratum says how the label-name sets relate.
+func c13PickSeries(r *rand.Rand, hist func(string)) []int {
+	switch r.Intn(5) {
+	case 0:
+		hist("labelsets=same-names")
+		p := r.Perm(4)
+		return p[:1+r.Intn(3)]
+	case 1:
+		hist("labelsets=nested-chain")
+		chain := [][]int{{4, 0, 5, 10}, {8, 7, 6, 5, 10}, {8, 11, 9}, {4, 6, 5}}[r.Intn(4)]
+		idx := r.Perm(len(chain))[:2+r.Intn(len(chain)-1)]
+		out := make([]int, len(idx))
+		for i, j := range idx {
+			out[i] = chain[j]
+		}
+		return out
+	case 2:
+		hist("labelsets=disjoint")
+		opts := [][]int{{9, 0}, {9, 7}, {11, 4, 7}, {9, 6, 8}}[r.Intn(4)]
+		out := append([]int(nil), opts...)
+		r.Shuffle(len(out), func(i, j int) { out[i], out[j] = out[j], out[i] })
+		return out
+	default:
+		hist("labelsets=mixed")
+		p := r.Perm(len(c13Labels))
+		return p[:2+r.Intn(4)]
+	}
 }
 
 func c13LabelsOf(fp uint64) labels.Labels {
@@ -178,9 +230,15 @@ func (w *c13Watch) run() {
 // presence model
 
 type c13Series struct {
-	K   int     `json:"series"`
-	FP  uint64  `json:"fp"`
-	Ivs []c13TR `json:"present_intervals"`
+	K      int               `json:"series"`
+	FP     uint64            `json:"fp"`
+	Labels map[string]string `json:"labels,omitempty"`
+	Ivs    []c13TR           `json:"present_intervals"`
+}
+
+func c13MkSeries(k int, ivs []c13TR) c13Series {
+	k = k % len(c13Labels)
+	return c13Series{K: k, FP: c13FPs[k], Labels: c13Labels[k].Map(), Ivs: ivs}
 }
 
 func c13Present(ivs []c13TR, ns int64) bool {
@@ -258,7 +316,7 @@ func c13GenPresence(r *rand.Rand, g0, step int64, n, per int, hist func(string))
 		return nil
 	}
 	pt := func(i int) int64 { return g0 + int64(i)*step }
-	regime := r.Intn(7)
+	regime := r.Intn(8)
 	var ivs []c13TR
 	addPts := func(present []bool) {
 		i := 0
@@ -348,6 +406,23 @@ func c13GenPresence(r *rand.Rand, g0, step int64, n, per int, hist func(string))
 			}
 		}
 		addPts(pr)
+	case 7:
+		hist("presence=whole-slices")
+		// present during whole slices only: the set of series differs from one slice response to the next and
+		// every run starts/ends exactly at a slice boundary (or one point off)
+		nsl := n/per + 1
+		for k := 0; k < nsl; k++ {
+			if r.Intn(2) == 0 {
+				continue
+			}
+			a, b := k*per+r.Intn(3)/2, (k+1)*per-1-r.Intn(3)/2
+			if b >= n {
+				b = n - 1
+			}
+			if a <= b {
+				ivs = append(ivs, c13TR{pt(a), pt(b)})
+			}
+		}
 	default:
 		hist("presence=long-runs")
 		pos := 0
@@ -382,7 +457,9 @@ type c13E2E struct {
 	Series   []c13Series `json:"series"`
 	Requests []c13TR     `json:"requests_seen,omitempty"`
 	Final    []c13R      `json:"result,omitempty"`
+	FinalLs  []string    `json:"result_labels,omitempty"`
 	Expected []c13R      `json:"expected_unsliced,omitempty"`
+	PermResp bool        `json:"server_permutes_series_order_per_response,omitempty"`
 	Err      string      `json:"error,omitempty"`
 	mu       sync.Mutex
 }
@@ -437,8 +514,13 @@ func (s *c13Server) ServeHTTP(w http.ResponseWriter, r *http.Request) {
 			}
 		}
 		if len(ts) > 0 {
-			out = append(out, fpSeries{Metric: map[string]string{"__name__": "m", "s": strconv.Itoa(ser.K)}, TsMs: ts})
+			out = append(out, fpSeries{Metric: c13Labels[ser.K%len(c13Labels)].Map(), TsMs: ts})
 		}
+	}
+	if c.PermResp && len(out) > 1 {
+		// a different series order in every response (the API promises no order across requests)
+		pr := rand.New(rand.NewSource(int64(h.Sum64() >> 1)))
+		pr.Shuffle(len(out), func(i, j int) { out[i], out[j] = out[j], out[i] })
 	}
 	fpWriteMatrix(w, out)
 }
@@ -499,6 +581,24 @@ func c13RunE2E(srv *c13Server, url string, c *c13E2E, watch *c13Watch) string {
 		return "RangeQuery failed against a healthy server: " + err.Error()
 	}
 	c.Final = c13FromMTR(res.Series.Ranges)
+	// every result range must carry the label set of a served series, and its fingerprint must be that label set's
+	served := map[uint64]labels.Labels{}
+	for _, ser := range c.Series {
+		served[ser.FP] = c13Labels[ser.K%len(c13Labels)]
+	}
+	badLabels := ""
+	for _, rg := range res.Series.Ranges {
+		c.FinalLs = append(c.FinalLs, rg.Labels.String())
+		want, ok := served[rg.Fingerprint]
+		switch {
+		case !ok:
+			badLabels = "a result range belongs to a series the server never returned: " + rg.Labels.String()
+		case !labels.Equal(want, rg.Labels):
+			badLabels = "a result range carries labels " + rg.Labels.String() + " but the fingerprint of series " + want.String()
+		case rg.Labels.Hash() != rg.Fingerprint:
+			badLabels = "a result range's fingerprint is not the hash of its labels " + rg.Labels.String()
+		}
+	}
 	if len(c.Requests) == 0 {
 		return "RangeQuery sent no query_range request"
 	}
@@ -508,7 +608,14 @@ func c13RunE2E(srv *c13Server, url string, c *c13E2E, watch *c13Watch) string {
 		return "the slices do not cover the requested start of the range"
 	}
 	if !c13EqRs(c13Canon(c.Final), c.Expected) {
-		return "merged ranges of the sliced query differ from the runs of one unsliced evaluation on the same step grid"
+		what := "merged ranges of the sliced query differ from the runs of one unsliced evaluation on the same step grid"
+		if badLabels != "" {
+			what += " (" + badLabels + ")"
+		}
+		return what
+	}
+	if badLabels != "" {
+		return badLabels
 	}
 	// result order: sort.Stable by (labels, start) => per series ascending starts
 	last := map[uint64]int64{}
@@ -663,7 +770,7 @@ func runC13(args []string) int {
 		must(json.Unmarshal(b, &c))
 		c.ID = next()
 		for i := range c.Series {
-			c.Series[i].FP = c13FPs[c.Series[i].K%len(c13FPs)]
+			c.Series[i] = c13MkSeries(c.Series[i].K, c.Series[i].Ivs)
 		}
 		hist("corpus")
 		e2e(&c, "corpus:"+filepath.Base(f))
@@ -676,7 +783,7 @@ func runC13(args []string) int {
 		start := c13Base(r)
 		lb := step*int64(2+r.Intn(4)) + r.Int63n(step)
 		c := &c13E2E{ID: next(), Start: start, End: c13SafeNs(start + lb), Lookback: lb, Step: step}
-		c.Series = []c13Series{{K: 0, FP: c13FPs[0], Ivs: c13GenPresence(r, start, step, int(lb/step)+1, 1, func(string) {})}}
+		c.Series = []c13Series{c13MkSeries(0, c13GenPresence(r, start, step, int(lb/step)+1, 1, func(string) {}))}
 		hist("e2e=step>4h(guard)")
 		e2e(c, "guard")
 	}
@@ -719,17 +826,17 @@ func runC13(args []string) int {
 				dur = 1
 			}
 		}
-		c := &c13E2E{ID: next(), Start: start, End: end, Lookback: dur, Step: step}
-		ns := 1 + r.Intn(3)
+		c := &c13E2E{ID: next(), Start: start, End: end, Lookback: dur, Step: step, PermResp: r.Intn(2) == 0}
 		g0 := c13RoundTo(start, size) - size
 		np := int((end-g0)/step) + 2
 		per := int(size / step)
 		if per < 1 {
 			per = 1
 		}
-		for s := 0; s < ns; s++ {
-			c.Series = append(c.Series, c13Series{K: s, FP: c13FPs[s], Ivs: c13GenPresence(r, g0, step, np, per, hist)})
+		for _, k := range c13PickSeries(r, hist) {
+			c.Series = append(c.Series, c13MkSeries(k, c13GenPresence(r, g0, step, np, per, hist)))
 		}
+		hist(fmt.Sprintf("e2e-series=%d", len(c.Series)))
 		e2e(c, "e2e")
 	}
 
@@ -1054,8 +1161,8 @@ func runC13(args []string) int {
 		g0 := c13RoundTo(start, size) - size
 		np := int((end-g0)/step) + 2
 		var ss []c13Series
-		for s := 0; s < 1+r.Intn(3); s++ {
-			ss = append(ss, c13Series{K: s, FP: c13FPs[s], Ivs: c13GenPresence(r, g0, step, np, per, hist)})
+		for _, k := range c13PickSeries(r, hist) {
+			ss = append(ss, c13MkSeries(k, c13GenPresence(r, g0, step, np, per, hist)))
 		}
 		cid := next()
 		cs := map[string]any{"kind": "pipeline", "start_ns": start, "end_ns": end, "step_ns": step, "slice_ns": size, "series": ss}
